@@ -187,6 +187,7 @@ func Gen(prop, tier string, seed uint64) *kernel.Plan {
 	}
 	if prop == "C12" {
 		wPar = 20
+		wRogue = 5 // a request that makes its handler fail, among the honest traffic: everybody else still gets an answer
 	}
 	if prop == "C11" {
 		wPar = 6
